@@ -3,6 +3,7 @@
 package main
 
 import (
+	"reflect"
 	"context"
 	"os"
 	"crypto/tls"
@@ -127,6 +128,7 @@ type c13Opt struct {
 	restart        bool // S9: the Server value has been through a complete start / Shutdown cycle before the scenario proper
 	both           bool // S8: the Server holds a PacketConn and a Listener
 	handlerCloses  bool // S7: the handler closes the connection through ResponseWriter.Close after (or instead of) its reply
+	hijack         bool // S10: the handler takes the connection over (ResponseWriter.Hijack) after its reply; it is no longer the server's
 }
 
 // plainReader hides the PacketConnReader half of the default reader.
@@ -211,6 +213,10 @@ func c13Scenario(name string, o c13Opt) *e2x.Scenario {
 					w.Close()
 					w.Close() // a second Close must be harmless
 					vsched.Logf("handler-closed %d", q.Id)
+				}
+				if o.hijack {
+					w.Hijack()
+					vsched.Logf("hijacked %d", q.Id)
 				}
 				vsched.Logf("exit %d", q.Id)
 			})
@@ -309,10 +315,22 @@ func c13Scenario(name string, o c13Opt) *e2x.Scenario {
 					}
 					if ln != nil {
 						for _, c := range ln.Conns {
+							if o.hijack && has(vsched.X.Log, "hijacked 100") {
+								// the connection belongs to the handler's owner now: the server may not have closed it
+								if c.Closed {
+									vsched.Logf("hijacked-conn-closed %s", c.Name)
+								}
+								continue
+							}
 							if !c.Closed {
 								vsched.Logf("left-conn %s", c.Name)
 							}
 						}
+					}
+					// whatever the Server keeps to find its connections again (a map keyed by net.Conn, found by
+					// reflection so that the field may be called anything) is empty
+					if n := trackedConns(srv); n > 0 {
+						vsched.Logf("tracked-conns %d", n)
 					}
 				}
 				vsched.Logf("%s-returned %v", tag, *err)
@@ -379,6 +397,12 @@ func c13Scenario(name string, o c13Opt) *e2x.Scenario {
 				}
 				if strings.HasPrefix(l, "left-goroutine ") {
 					v["goroutine-alive-after-shutdown"] = "when Shutdown returned nil a goroutine spawned by the server was still running: " + strings.TrimPrefix(l, "left-goroutine ")
+				}
+				if strings.HasPrefix(l, "tracked-conns ") {
+					v["connection-tracked-after-shutdown"] = "when Shutdown returned nil the Server still tracked connections (entries in a map keyed by net.Conn): " + strings.TrimPrefix(l, "tracked-conns ")
+				}
+				if strings.HasPrefix(l, "hijacked-conn-closed ") {
+					v["hijacked-connection-closed-by-server"] = "the connection the handler took over with Hijack was closed by the server: " + strings.TrimPrefix(l, "hijacked-conn-closed ")
 				}
 				if strings.HasPrefix(l, "left-conn ") {
 					v["connection-open-after-shutdown"] = "when Shutdown returned nil an accepted connection was still open: " + strings.TrimPrefix(l, "left-conn ")
@@ -515,6 +539,7 @@ func c13Spaces(c *fw.Ctx) {
 		{"S4/pc/1-client+read-timeout", c13Opt{transport: "pc", clients: []string{"full"}, fireDeadline: true}, 1, 2},
 		{"S7/tcp/handler-closes-connection", c13Opt{transport: "tcp", clients: []string{"full"}, handlerCloses: true}, 2, 3},
 		{"S7/pc/handler-closes-writer", c13Opt{transport: "pc", clients: []string{"full"}, handlerCloses: true}, 1, 2},
+		{"S10/tcp/handler-hijacks-connection", c13Opt{transport: "tcp", clients: []string{"full"}, hijack: true}, 2, 3},
 		{"S1/tcp/0-clients/listener-with-own-close-error", c13Opt{transport: "tcp", ownCloseErr: true}, 100, 100},
 		{"S1/tcp/1-client/listener-with-own-close-error", c13Opt{transport: "tcp", ownCloseErr: true, clients: []string{"full"}}, 1, 2},
 		{"S9/tcp/restarted-server+1-client", c13Opt{transport: "tcp", restart: true, clients: []string{"full"}}, 2, 3},
@@ -540,4 +565,19 @@ func c13Spaces(c *fw.Ctx) {
 			exploreSpaceSleep(c, "C13", c13Scenario(s.name, s.o), 20*cap, "serve ∥ clients ∥ Shutdown on the real Server ("+s.name+")")
 		}
 	}
+}
+
+var netConnType = reflect.TypeOf((*net.Conn)(nil)).Elem()
+
+// trackedConns counts the entries of every map-typed field of the Server whose key type is a network connection.
+func trackedConns(srv *dns.Server) int {
+	n := 0
+	v := reflect.ValueOf(srv).Elem()
+	for i := 0; i < v.NumField(); i++ {
+		f := v.Field(i)
+		if f.Kind() == reflect.Map && f.Type().Key().Implements(netConnType) {
+			n += f.Len()
+		}
+	}
+	return n
 }
